@@ -23,14 +23,15 @@ union Thing = Cat | Dog
 enum Mood { HAPPY GRUMPY @deprecated }
 input Filter { mood: Mood = HAPPY limit: Int = 10 tags: [String!] }
 interface Lonely { id: ID! }
-type Query { node(id: ID!): Node pets(filter: Filter, limit: Int = null): [Pet!]! things: [Thing!]! lonely: Lonely tom: Cat }
+type Legacy { was: Int @deprecated(reason: "all of it") }
+type Query { node(id: ID!): Node pets(filter: Filter = {limit: 3, tags: ["a"]}, limit: Int = null): [Pet!]! things: [Thing!]! lonely: Lonely tom: Cat legacy: Legacy }
 `
 const vS16B = `
 interface Node { id: ID! }
 type Cat implements Node { id: ID! toy: String }
 scalar Date
 scalar JSON
-type Query { node(id: ID!): Node today: Date search(meta: JSON): String }
+type Query { node(id: ID!): Node today: Date search(meta: JSON = 70): String }
 type Mutation { adopt(id: ID!): Cat }
 `
 
@@ -355,6 +356,15 @@ func VerifIntrospectionRoundTrip() {
 	for _, iq := range []string{`{ __typename }`, `{ __schema { queryType { name } } }`, `query($n: String!) { __type(name: $n) { name kind } }`} {
 		_, ia := f.vPost(iq, map[string]interface{}{"n": "Cat"}, "")
 		verifAssert(ia["errors"] == nil && ia["data"] != nil, "introspection operations are answered whatever the root type holds: "+iq)
+	}
+	if len(sdls) == 2 && sdls[0] == vS16A {
+		// a type all of whose fields are deprecated still has a list of fields (an empty one unless asked)
+		_, la := f.vPost(`{ __type(name: "Legacy") { kind fields { name } all: fields(includeDeprecated: true) { name } } }`, nil, "")
+		ld, _ := la["data"].(map[string]interface{})
+		lt, _ := ld["__type"].(map[string]interface{})
+		lf, isList := lt["fields"].([]interface{})
+		verifAssert(lt != nil && isList && len(lf) == 0, "fields of an object is a list, also when every field is deprecated and none is asked for")
+		verifAssert(vFind(lt["all"], "was") != nil, "deprecated fields are listed on request")
 	}
 	q := &v16Queryer{gw: f.gw}
 	intro := &introspection.ParallelRemoteSchemaIntrospector{Factory: func(string) queryer.Queryer { return q }}
